@@ -34,6 +34,7 @@ def REQUIRED(tier):
     req = {}
     for s in SCHEMAS:
         req[("schema-ok:" if not s.endswith("-neg") else "schema-refused-ok:") + s] = 10
+    req["schema:reached-in-place"] = 300
     return req
 
 
@@ -103,6 +104,45 @@ def classify_refusal(inst, node):
     return f"schema-refused/{inst.schema}/parent-{parent}"
 
 
+_LISTERS = []
+FORCE = {"via": False}
+
+
+def reached_in_place(rec, root, rng):
+    """The same tree OBJECTS reach the schema shape by way of another shape: one commutative node is
+    swapped in place, every rule lists its applicable nodes on that intermediate tree (the agent's
+    listing step -- whatever a rule or a helper remembers about these node objects is remembered
+    now), and the node is swapped back.  Returns the root of the restored tree, or None when the
+    detour did not come back to the same structure (then the instance is driven on a fresh parse)."""
+    import mathy_core.rules as R
+
+    if not _LISTERS:
+        _LISTERS.extend(r for _, r in MR.rule_instances())
+    before = S.shadow(root)
+    cs = R.CommutativeSwapRule(preferred=False)
+    try:
+        cands = [m for m in S.nodes_preorder(root) if S.kind(m) in ("Add", "Multiply") and cs.can_apply_to(m)]
+        if not cands:
+            return None
+        m = rng.choice(cands)
+        path = S.path_from_root(m)
+        mid = S.root_of(cs.apply_to(m).result)
+        if S.shadow(mid) == before:
+            return None
+        for rule in _LISTERS:
+            rule.find_nodes(mid)
+        m2 = S.follow(mid, path)
+        if m2 is None or not cs.can_apply_to(m2):
+            return None
+        back = S.root_of(cs.apply_to(m2).result)
+        if S.shadow(back) != before:
+            return None
+        rec.arm("schema:reached-in-place")
+        return back
+    except Exception:
+        return None
+
+
 def run_instance(rec, inst, rng, ctx_sample):
     try:
         want = vs(inst.text)
@@ -117,6 +157,13 @@ def run_instance(rec, inst, rng, ctx_sample):
         except Exception:
             rec.skip("context does not parse")
             continue
+        via = None
+        if FORCE["via"] or rng.random() < 0.3:
+            via = reached_in_place(rec, root, rng)
+            if via is not None:
+                root = via
+            else:
+                root = D.parse(full)
         outer = locate(root, want)
         if outer is None:
             rec.skip("schema subtree did not survive parsing in this context")
@@ -129,6 +176,8 @@ def run_instance(rec, inst, rng, ctx_sample):
         ok = bool(rule.can_apply_to(node))
         w = {"schema": inst.schema, "rule": inst.rule, "text": inst.text, "context": ctx, "full": full, "kind": inst.kind, "params": inst.params,
              "applicable": inst.applicable}
+        if via is not None:
+            w["reached_in_place"] = True
         if not inst.applicable:
             if ok:
                 w["summary"] = f"{inst.rule} accepts the documented non-applicable form '{inst.text}' in '{full}'"
@@ -509,4 +558,6 @@ def run(rec, cfg):
 def replay(rec, cfg, w):
     rec.accept = {"schema"}
     inst = rebuild(w)
-    run_instance(rec, inst, cfg.rng("replay"), inst.contexts)
+    FORCE["via"] = bool(w.get("reached_in_place"))
+    for i in range(12 if FORCE["via"] else 1):   # the in-place detour picks its swap node at random
+        run_instance(rec, inst, cfg.rng(f"replay{i}"), [w["context"]] if FORCE["via"] and w.get("context") else inst.contexts)
